@@ -8,7 +8,8 @@
 From Coq Require Import List ZArith Bool Arith Lia.
 From RecordUpdate Require Import RecordUpdate.
 From FV Require Import Kernel Accounting World.
-From FV Require Factory FactoryInv FactoryLevel FactoryCount FactoryStamp.
+From FV Require Factory FactoryInv FactoryLevel FactoryCount FactoryStamp TieStats StoreB.
+From FV Require Import SrcFragments Lens.
 From Coq Require Import Sorting.Sorted.
 Import ListNotations.
 Open Scope Z_scope.
@@ -109,3 +110,16 @@ Example C18_cycle_witness :
   FactoryStamp.cyc 3 [LGen 0 0 0; LRecv 5 3 0 1; LRecv 7 2 1 0; LRecv 9 3 2 4] = 9 /\
   FactoryStamp.times [LGen 0 0 0; LSel 1 true 0; LRecv 5 3 0 1] = [0; 5].
 Proof. vm_compute. auto. Qed.
+
+(* tie B: the arithmetic of the statistics code, re-translated from the sources on every run: the increment of the
+   weighted occupancy sum and the level recorded by _update_time_averaged_level of both stores are the accumulator
+   step of C18_weighted_sum_is_integral on the true occupancy, and what Sink.behaviour adds to its cycle total is the
+   contribution of a reception to the sum of C18_cycle_time_is_sum *)
+Theorem C18_statistics_arithmetic_regenerated :
+  (forall a t n, l_sum (lacc_step a (t, n)) = l_sum a + BufferStore_level_increment t (l_t a) (l_n a) /\
+                 l_sum (lacc_step a (t, n)) = l_sum a + FleetStore_level_increment t (l_t a) (l_n a)) /\
+  (forall s, BufferStore_level_count (lensB s) = Z.of_nat (length (StoreB.transit s) + length (StoreB.ready s)) /\
+             FleetStore_level_count (lensB s) = Z.of_nat (length (StoreB.transit s) + length (StoreB.ready s))) /\
+  (forall n t i c, FactoryStamp.contrib n (LRecv t n i c) = Sink_cycle_increment t c).
+Proof. exact (conj TieStats.level_increment_src (conj TieStats.level_count_src TieStats.sink_cycle_increment_src)). Qed.
+Print Assumptions C18_statistics_arithmetic_regenerated.
